@@ -198,6 +198,9 @@ def _run_case(case, ctx):
     # --- line endings and trailing blanks (files that went through another editor or operating system)
     same_everything("whitespace", [l.rstrip("\n") + r.choice(["", " ", "\t", "   "]) + "\n" for l in base_lines])
     same_everything("whitespace", [l.rstrip("\n") + "\r\n" for l in base_lines])
+    # a file whose last line has no line terminator, and lines handed over without any trailing blank at all
+    same_everything("whitespace", base_lines[:-1] + [base_lines[-1].rstrip()])
+    same_everything("whitespace", [l.rstrip() for l in base_lines])
     # --- comments
     same_everything("comments", progs.render(p, comments=lambda i: r.choice([" a comment", "X,Y+1 #$FF", " LDA #1 ; nested ; semicolons", "", " [A,B] \"quoted\" 'c"])))
     same_everything("comments", progs.render(p, comments=lambda i: ""))
